@@ -1,0 +1,28 @@
+//go:build verif
+
+package p9
+
+import "sync/atomic"
+
+// This file is compiled only with the "verif" build tag. verifPoint marks a
+// place between two critical sections where the external verification harness
+// may hold a request for a moment (to let a competing request in). Without the
+// tag verifPoint is an empty function (verif_point_off.go).
+
+var verifPointFn atomic.Pointer[func(name string)]
+
+// VerifSetPoint installs (or, with nil, removes) the function called at every
+// verifPoint.
+func VerifSetPoint(fn func(name string)) {
+	if fn == nil {
+		verifPointFn.Store(nil)
+		return
+	}
+	verifPointFn.Store(&fn)
+}
+
+func verifPoint(name string) {
+	if fn := verifPointFn.Load(); fn != nil {
+		(*fn)(name)
+	}
+}
